@@ -321,7 +321,7 @@ pub fn run(ctx: &Ctx, replay: Option<&J>) -> CheckResult {
     CheckResult { evidence: ev, rule, assumptions, violations: vs }
 }
 
-fn one_string(s: &str) -> Result<Vec<&'static str>, (String, String)> {
+pub fn one_string(s: &str) -> Result<Vec<&'static str>, (String, String)> {
     oracle_util(s)?;
     let mut classes = vec![oracle_1029(s)?];
     // descriptor messages: rotate through them by string hash to keep the cost per case bounded
